@@ -219,7 +219,7 @@ theorem C16_chain_inv (s : St) (vals : List SVal) (blockMs : Nat) (s' : St) (hin
     · rfl
   unfold endBlock at h
   cases hc : currentSet vals with
-  | none => simp [hc] at h
+  | none => simp [hc] at h; subst h; exact hinv
   | some cur =>
     simp only [hc] at h
     cases hs : s.saved with
